@@ -122,6 +122,34 @@ func validObjectKey(key string) bool {
 	return true
 }
 
+// removeAll removes name and everything below it, like Fs.RemoveAll. It does
+// not call Fs.RemoveAll because afero.MemMapFs (v1.2.1) treats the argument as
+// a plain string prefix there: removing the bucket "logs" would take the
+// sibling "logs-archive" and everything in it along.
+func removeAll(fs afero.Fs, name string) error {
+	stat, err := fs.Stat(name)
+	if notExist(err) {
+		return nil
+	} else if err != nil {
+		return err
+	}
+	if stat.IsDir() {
+		entries, err := afero.ReadDir(fs, name)
+		if err != nil {
+			return err
+		}
+		for _, entry := range entries {
+			if err := removeAll(fs, filepath.Join(name, entry.Name())); err != nil {
+				return err
+			}
+		}
+	}
+	if err := fs.Remove(name); err != nil && !notExist(err) {
+		return err
+	}
+	return nil
+}
+
 // notExist reports whether err means that the path names nothing: the file is
 // missing, or (on a real file system, ENOTDIR) one of its parent directories
 // is a file - the object of a key that is a path prefix of the one asked for.
